@@ -1555,7 +1555,7 @@ for _p in sorted(_glob.glob(_os.path.join(_os.path.dirname(_os.path.abspath(__fi
 for _p in sorted(_glob.glob(_os.path.join(_os.path.dirname(_os.path.abspath(__file__)), "refactors", "rf5", "*.diff"))):
     RF("RF5-" + _os.path.basename(_p)[:-5], ALL19, [("@patch", "selftest/refactors/rf5/" + _os.path.basename(_p), "")])
 
-# sixth round: the round-5 (`-e-`), round-7 (`-g-`) and round-8 (`-h-`) seeds with their hidden defect repaired -- the same clean-up / hardening, behaviour preserved.
+# sixth round: seeds of all rounds with their hidden defect repaired (`<seed>-repaired`; rounds a-d repaired by sub-agents) -- the same clean-up / hardening, behaviour preserved.
 # A check that caught the seed only because of the new *shape* raises a false alarm here.
 for _p in sorted(_glob.glob(_os.path.join(_os.path.dirname(_os.path.abspath(__file__)), "refactors", "rf6", "*.diff"))):
     RF("RF6-" + _os.path.basename(_p)[:-5], ALL19, [("@patch", "selftest/refactors/rf6/" + _os.path.basename(_p), "")])
@@ -1602,6 +1602,38 @@ KNOWN_LIMITS = {
                            ["C01/used/free-space/", "C02/used/free-space/", "C12/used/free-space/", "C17/used/free-space/"]),
     "RF6-C20-h-repaired": ("`ResponseTarget::to_owned` is replaced by a constructor `OwnedResponseTarget::capture(topic, correlation)` called from "
                            "`reply_owned` (the anchor of the `owned` group is deleted)", ["C20/target/reply_owned", "C20/ANCHOR-LOST/owned/"]),
+    'RF6-C01-d-repaired': ('next_step as two calls of `next_step_where(wanted: fn(SendState) -> bool)` over a generic `next_pending(entries, state: impl Fn, wanted)`: the classifier reaches the test through a function pointer and a closure parameter (indirect calls are not resolved; same class as RF3-C02-05)',
+        ['C01/priority/gated', 'C15/write/no-interleave']),
+    'RF6-C04-b-repaired': ('the QoS 2 arm decides through a `Qos2Arrival` value returned by a helper; the delivering path is not a constant the path enumeration can follow (same class as RF7-G09-02)',
+        ['C04/once/deliver-implies-recorded']),
+    'RF6-C05-d-repaired': ('`Session::status` as `match (current, tracked)` with one `is_tracked` lookup over both tables for every kind: the decision table differs from the reference for (QoS 1 / SUBSCRIBE handle, identifier only in the release list) -- unreachable while identifiers are unique, which the table check does not assume',
+        ['C05/status/', 'C18/status/']),
+    'RF6-C06-c-repaired': ('`ack_packet` returns an `Acked` classification and a `settle` helper credits the window by acknowledgement kind: quota increments no longer sit in the arms the increment rules enumerate',
+        ['C06/inc/']),
+    'RF6-C07-b-repaired': ("the in-flight lookups become one iterator `inflight_ids(publishes_only)` chained over both tables: the allocator's two lookups are no longer two membership tests the `fresh` clause can name (and the iterator reads arena bytes through a new borrow)",
+        ['C07/fresh/', 'C01/writers/encapsulated', 'C02/writers/encapsulated', 'C17/writers/encapsulated']),
+    'RF6-C07-c-repaired': ('a `packet_id_wrapped` fast path hands identifiers out without a lookup until the counter has wrapped once: correct by a history argument (nothing in flight can carry a larger identifier before the first wrap), not visible as a lookup on every path',
+        ['C07/fresh/']),
+    'RF6-C07-d-repaired': ('the allocator walks a local candidate through an `owns_packet_id` helper and stores the counter once at the end: the looked-up value and the returned value are related through two `get()` calls of a loop-carried local',
+        ['C07/fresh/']),
+    'RF6-C08-b-repaired': ('the bound check `header + remaining length <= buffer.len()` moves into the length probe; `receive_buffer` slices without a guard of its own (the guard is an invariant of the stored length, established elsewhere)',
+        ['C04/rx/window', 'C14/rx/window', 'C08/panic/']),
+    'RF6-C14-c-repaired': ('as RF6-C08-b-repaired: the receive-window guard is established by the probe that stores the packet length',
+        ['C04/rx/window', 'C14/rx/window', 'C08/panic/']),
+    'RF6-C09-c-repaired': ("`Will` keeps its CONNECT flag bits in one `flags: u8` field maintained by the builder methods: the connect-flags table is read from the serializer's own `|=` contributions",
+        ['C01/bits/connect', 'C09/bits/connect']),
+    'RF6-C11-c-repaired': ('the latch on a failed flush moves from `flush_current` into a `fail_outbound` helper applied by every caller (`.map_err(|err| self.fail_outbound(err))`): the per-function rule wants the exit of `flush_current` itself latched (the seed it repairs misses one caller)',
+        ['C11/fatal/flush_current', 'C19/dead/fatal/flush_current']),
+    'RF6-C12-b-repaired': ('the length probe becomes incremental with two new reader fields: new arithmetic / indexing sites on the inbound path have no entry in the panic-site discharge table (reported by design)',
+        ['C08/panic/', 'C08/varint/reader-probe']),
+    'RF6-C15-c-repaired': ('the write step carries only the unsent tail (`pending`) and the recorded progress is `len - pending + written`: a re-representation of the (bytes, written, len) triple the write clauses compare',
+        ['C01/store/step-accumulates', 'C04/store/step-accumulates', 'C13/store/step-accumulates', 'C15/store/step-accumulates', 'C15/write/']),
+    'RF6-C17-c-repaired': ('`ack_packet` closes the hole itself with a `close_hole` helper (`copy_within` + `used` update) instead of calling `compact()`: a new writer of arena bytes and of `used` (who-may-write rules report it by design)',
+        ['C01/used/writer', 'C01/writers/', 'C02/used/writer', 'C02/writers/', 'C12/used/writer', 'C17/used/writer', 'C17/writers/']),
+    'RF6-C20-b-repaired': ('`to_owned` copies the correlation data with `Vec::new()` + `extend_from_slice(..)` (fallible in heapless, mapped to BufferTooSmall) instead of `TryFrom`: the conversion census knows the TryFrom / TryInto idiom only',
+        ['C20/owned/', 'C20/publication/OwnedResponseTarget']),
+    'RF6-C20-c-repaired': ("the decoder's string / binary arms are merged by or-patterns and build the property through `from_utf8(identifier, ..)` / `from_binary(..)` helpers that match on the identifier a second time (with a wildcard default): the read table is extracted per arm of one match",
+        ['C01/props/read/', 'C09/props/read/', 'C04/decode/', 'C08/decode/', 'C20/decode/']),
     # round 7: documented limits
     "RF7-G02-01-written-progress-combinators": ("`SendState::set_written(&mut self, written, len)` becomes a pure constructor `after_write(written, len) -> Self` "
                                                 "(a new function, folded into the three setters): the anchor of the `store` group is gone",
